@@ -122,7 +122,8 @@ def mkarg(ctx, kind, name, enum_ints=False):
     if kind == "dec":
         return vdec((0.0, -1.5, 2.5)[ctx.choice(name, 3)])
     if kind == "str":
-        return vstr(("", "a", "abc", "12", " a|b ", "{x#12}", "{y}{x#-9}", "{")[ctx.choice(name, 8)])
+        # (the last two are not well-formed programs: eval / parse of a value must fail as a runtime error)
+        return vstr(("", "a", "abc", "12", " a|b ", "{x#12}", "{y}{x#-9}", "{", "1 +", "(")[ctx.choice(name, 10)])
     if kind == "pattern":
         return V.ValuePattern("a")
     if kind == "date":
@@ -183,6 +184,13 @@ def run(ctx, cell):
         ctx.check(isinstance(out.exc.value, V.Value), key + ":runtime-error-without-error-value", detail)
         return ["rt"]
     if out.kind == "syn":
+        # the program text itself is well-formed, so a syntax error here was raised DURING evaluation
+        # (eval / parse / require of a value): it is not a runtime error that `catch` can intercept
+        import ckl.parser as P
+        from harness.common import guard
+        if guard(P.parse_script, text, "t").kind == "syn":
+            return ["syn-text"]
+        ctx.fail(key + ":syntax-error-escapes-evaluation", detail)
         return ["syn"]
     ctx.reach("value")
     ctx.check(isinstance(out.value, V.Value), key + ":result-is-not-a-language-value", detail)
